@@ -23,7 +23,7 @@ import ptree2
 from common import Outcome, Scratch, pmap, tlc
 
 PID = "C03"
-ALL_DEVS = ["CaptionSwallowsDataCells", "TagAttrNameCharset"]
+ALL_DEVS = ["CaptionSwallowsDataCells", "TagAttrNameCharset", "RowCellsReadAsAttributes"]
 
 
 # ---------------------------------------------------------------------------
@@ -226,7 +226,9 @@ def rinline(rng, depth, cx=frozenset()):
                     opts.append("H")
         k = rng.choice(opts)
         if k == "t":
-            it = T(rng.choice(WORDS), "SP", rng.choice(WORDS)) if rng.random() < 0.4 else T(rng.choice(WORDS))
+            r = rng.random()
+            it = (T(rng.choice(WORDS), "SP", rng.choice(WORDS)) if r < 0.4
+                  else T("k", "=", rng.choice(WORDS)) if r < 0.5 else T(rng.choice(WORDS)))
         elif k == "T":
             args = [[T("t")]] + [rarg(rng, depth - 1, cx | {"T"}) for _ in range(rng.randint(0, 2))]
             it = {"k": "T", "args": args}
